@@ -1,7 +1,65 @@
 import DirectVerif.Driver.C04
-/-! C06 shares the line-protocol interpreter of `Model/MaskGeom.lean` with C04. -/
+import DirectVerif.Model.C06Seed
+/-! C06 shares the line-protocol interpreter of `Model/MaskGeom.lean` with C04 and adds the object machine of
+`Model/C06Seed.lean` (`acs_hist`) and the exact float glue of `Model/C06Round.lean` (`num_low`, `fl53`). -/
 namespace DirectVerif.Driver.C06
+open DirectVerif DirectVerif.Driver DirectVerif.MaskGeom DirectVerif.C06Seed DirectVerif.C06Round
 
-def step (op : String) (gs : List (List Int)) : String := DirectVerif.Driver.C04.step op gs
+/-- `cfNum cfDen accNum accDen (rows cols radius)*` -/
+def pairOf (g : List Int) : Option PairCfg :=
+  match g with
+  | cn :: cd :: an :: ad :: rest =>
+    some { cfNum := cn.toNat, cfDen := cd.toNat, accNum := an.toNat, accDen := ad.toNat,
+           radii := (chunksOf 3 rest).map fun t => (((t.getD 0 0).toNat, (t.getD 1 0).toNat), t.getD 2 0) }
+  | _ => none
+
+/-- `seedIdx return_acs shape…` -/
+def callOf (g : List Int) : Option (Call Nat) :=
+  match g with
+  | s :: r :: shape => some { shape := nats shape, seed := s.toNat, returnAcs := r != 0 }
+  | _ => none
+
+def errCode : Err → Int
+  | .valueError => 1 | .runtimeError => 2 | .indexError => 3
+
+/-- `acs_hist gid mode npairs | choices | pair_1 | … | pair_n | call_1 | … | call_m`: the whole history runs on ONE
+object of the machine (`run`); the answers of the `return_acs` requests are printed (`shape | packed rows`, or
+`-1 | error code`).  The stream is the table `seed index ↦ RandomState(seed).randint(0, npairs)`. -/
+def opAcsHist (hdr choices : List Int) (rest : List (List Int)) : String :=
+  match hdr with
+  | [gid, mi, np] =>
+    match C04.genOf gid, C04.modeOf mi with
+    | some g, some m =>
+      let n := np.toNat
+      match (rest.take n).mapM pairOf, (rest.drop n).mapM callOf with
+      | some pairs, some calls =>
+        let ops := tableOps (nats choices) [] []
+        let cfg := pairsCfg g m pairs
+        let answers := (run ops cfg newObj calls).1
+        let out := (calls.zip answers).filter (fun ca => ca.1.returnAcs) |>.flatMap fun ca =>
+          match ca.2 with
+          | .ok t => [t.shape.map Int.ofNat, (chunksOf (colsOf ca.1.shape) t.data).map C04.pack]
+          | .error e => [[-1], [errCode e]]
+        okG out
+      | _, _ => "err BadOp"
+    | _, _ => "err BadOp"
+  | _ => "err BadOp"
+
+def step (op : String) (gs : List (List Int)) : String :=
+  match op, gs with
+  | "acs_hist", hdr :: choices :: rest => opAcsHist hdr choices rest
+  -- `num_low gid cols | cfNum cfDen accNum accDen`: the ACS width the generator's glue computes
+  | "num_low_exact", [[gid, cols], [cn, cd, an, ad, isInt]] =>
+    match C04.genOf gid with
+    | some g =>
+      let p : PairCfg := { cfNum := cn.toNat, cfDen := cd.toNat, accNum := an.toNat, accDen := ad.toNat, radii := [] }
+      if ctorAccepts g p (isInt != 0) then okG [[numLow g cols.toNat p]] else "err ValueError"
+    | none => "err BadOp"
+  -- `fl53 num den`: the binary64 nearest to num / den, and Python's round / int of it
+  | "fl53", [[num, den]] =>
+    let p := fl53 num.toNat den.toNat
+    let g := Nat.gcd p.1 p.2
+    okG [[Int.ofNat (p.1 / g), Int.ofNat (p.2 / g)], [Int.ofNat (roundHalfEven p.1 p.2), Int.ofNat (truncQ p.1 p.2)]]
+  | _, _ => DirectVerif.Driver.C04.step op gs
 
 end DirectVerif.Driver.C06
